@@ -1,6 +1,7 @@
 package main
 
 import (
+	"fmt"
 	"go/ast"
 	"go/token"
 	"go/types"
@@ -566,5 +567,81 @@ func rulePoolKeys(c *Ctx) {
 				c.ok(key, lits[0].pos, "%d keys, all with Epoch: %s", len(lits), lits[0].epoch)
 			}
 		}
+	}
+}
+
+func init() {
+	register(&Rule{Name: "pool.item", Floor: 1,
+		Doc: "an attestation handed out by a pool query pairs the aggregation bits and the signature of ONE stored aggregate: in every Attestation literal built in package pool, AggregationBits and Signature select from the same variable (the signature only verifies for exactly its own participant set)",
+		Run: rulePoolItem})
+}
+
+func rulePoolItem(c *Ctx) {
+	pk := c.P.Pkg("eth2/pool")
+	if pk == nil {
+		anchorFail("pool.item: package eth2/pool not loaded")
+	}
+	info := pk.TypesInfo
+	n := 0
+	c.P.funcDecls(func(p *packages.Package, fd *ast.FuncDecl) {
+		if p != pk || fd.Body == nil {
+			return
+		}
+		fname := "pool." + funcName(fd)
+		ast.Inspect(fd.Body, func(nd ast.Node) bool {
+			cl, ok := nd.(*ast.CompositeLit)
+			if !ok {
+				return true
+			}
+			nt := namedOf(info.TypeOf(cl))
+			if nt == nil || nt.Obj().Name() != "Attestation" {
+				return true
+			}
+			base := func(e ast.Expr) types.Object {
+				for {
+					switch x := ast.Unparen(e).(type) {
+					case *ast.SelectorExpr:
+						e = x.X
+					case *ast.StarExpr:
+						e = x.X
+					case *ast.Ident:
+						return info.ObjectOf(x)
+					default:
+						return nil
+					}
+				}
+			}
+			var bitsV, sigV ast.Expr
+			for _, el := range cl.Elts {
+				if kv, ok := el.(*ast.KeyValueExpr); ok {
+					if id, ok := kv.Key.(*ast.Ident); ok {
+						switch id.Name {
+						case "AggregationBits":
+							bitsV = kv.Value
+						case "Signature":
+							sigV = kv.Value
+						}
+					}
+				}
+			}
+			if bitsV == nil || sigV == nil {
+				return true
+			}
+			n++
+			key := fmt.Sprintf("%s@Attestation#%d", fname, n)
+			b1, b2 := base(bitsV), base(sigV)
+			switch {
+			case b1 == nil || b2 == nil:
+				c.unm(key, cl.Pos(), "bits or signature not a field selection")
+			case b1 != b2:
+				c.bad(key, cl.Pos(), "%s returns an attestation whose AggregationBits come from `%s` and whose Signature comes from `%s`: the bits of one record paired with the signature of another is not an item that was added (and does not verify)", fname, types.ExprString(bitsV), types.ExprString(sigV))
+			default:
+				c.ok(key, cl.Pos(), "bits and signature of the same record (%s)", b1.Name())
+			}
+			return true
+		})
+	})
+	if n < 1 {
+		anchorFail("pool.item: no Attestation literal with bits and signature in package pool")
 	}
 }
